@@ -19,7 +19,7 @@ func (m *MinimumMeasurement) Add(sample float64) (float64, bool) {
 	if oldValue == 0.0 || sample < oldValue {
 		m.value = sample
 	}
-	return m.value, oldValue == m.value
+	return m.value, oldValue != m.value
 }
 
 // Get will return the current minimum value
